@@ -234,11 +234,14 @@ struct PidSim
         if ((double)u.nr->wp != wp || (double)u.nr->wi != wi || (double)u.nr->wd != wd) return c.fail("setter-did-not-install-value", site, "weights in the controller are %.17g %.17g %.17g after setting %.17g %.17g %.17g", (double)u.nr->wp, (double)u.nr->wi, (double)u.nr->wd, wp, wi, wd);
         return true;
     }
+    unsigned zero_calls = 0;
     void zero_unit(Unit &u)
     {
-        if (ctype == 0) { c.site("a_pid_zero"); a_pid_zero(u.pid); }
-        else if (ctype == 1) { c.site("a_pid_fuzzy_zero"); a_pid_fuzzy_zero(u.fz); }
-        else { c.site("a_pid_neuro_zero"); a_pid_neuro_zero(u.nr); }
+        bool const alias = (++zero_calls & 1) != 0; // every other restart goes through the documented *_init spelling
+        if (alias) c.st.add("probe.restart_through_init_alias");
+        if (ctype == 0) { c.site("a_pid_zero"); if (alias) a_pid_init(u.pid); else a_pid_zero(u.pid); }
+        else if (ctype == 1) { c.site("a_pid_fuzzy_zero"); if (alias) a_pid_fuzzy_init(u.fz); else a_pid_fuzzy_zero(u.fz); }
+        else { c.site("a_pid_neuro_zero"); if (alias) a_pid_neuro_init(u.nr); else a_pid_neuro_zero(u.nr); }
         // a freshly initialised controller has an empty history: every remembered sample, sum and output is zero
         a_pid const *pd = P(u);
         if (pd->sum != 0 || pd->out != 0 || pd->var != 0 || pd->fdb != 0 || pd->err != 0 || (ctype == 2 && u.nr->ec != 0))
